@@ -29,7 +29,11 @@ func init() {
 			"decide that dialer's Dial against a refusing peer (returns nil / reports the refusal) and the second attempt starts no earlier than the accepted 800ms after the first failed (20ms before; exact lower bound on the harness clock)), " +
 			"ctxq (SUB and SURVEYOR: the socket accepts READQ-LEN k, a context is opened, optionally a second length and a second context; k+7 messages per context arrive over one vt pipe while nobody receives and are known processed: " +
 			"a SUB context delivers exactly the newest k, a SURVEYOR context exactly k responses and then the sentinel response injected afterwards; SURVEYOR also with the length set on the context). " +
-			"quick: effects on inproc and vt, 26 tlscfg, 40 subs, 20 maxrecv, 216 propagate (connected phase on inproc only, one effect variant per protocol) and 20 ctxq cases (k in 1,3,5,16); " +
+			"ownopt (an option the socket and its contexts both have, accepted with DIFFERENT values (0, a short time, 1h, or never set) by the socket and by 1-2 of its contexts, socket set before the contexts were opened or after they were set; every verdict against each object's own GetOption; one vt connection: " +
+			"REQ RETRY-TIME with the peer taking every request, dropping the connection and another peer connecting — an object whose own value is 0 never has its request transmitted again (its next request on the new connection is the sentinel) and an object whose own value is non-zero has it retransmitted there and receives the reply; " +
+			"REQ RETRY-TIME 40ms — that object's request is retransmitted no earlier than 40ms after its Send, the objects with 0 or 1h have exactly one transmission; SURVEYOR SURVEY-TIME 60ms — that object's Recv ends with an error no earlier than 60ms after its Send, then the objects with 0 or 1h still receive the response to their survey; " +
+			"RECV-DEADLINE 50ms on req/rep/sub/surveyor/respondent — that object's Recv returns ErrRecvTimeout no earlier than 50ms after it was invoked, the Recv of the objects with 0 or 1h is then still outstanding and completes with the message sent afterwards). " +
+			"quick: effects on inproc and vt, 25 ownopt, 26 tlscfg, 40 subs, 20 maxrecv, 216 propagate (connected phase on inproc only, one effect variant per protocol) and 20 ctxq cases (k in 1,3,5,16); " +
 			"thorough: effects on all 6 transports, more queue lengths and more seed-chosen sequences, 122 tlscfg, 240 subs cases (a third over real transports), 160 maxrecv, 384 propagate (connected phase on every transport, all effect variants) and 55 ctxq cases (11 lengths up to 200). " +
 			"non-trivial = a grid ran to completion on an object / the effect was really exercised (option accepted and traffic observed); " +
 			"distinct = hash of (object label, full outcome table) for grids, of (kind, protocol, option, transport, sequence, observed outcome) for effects",
